@@ -26,7 +26,10 @@ def class_source(case):
     for sd in case["states"]:
         args = []
         if sd["timed"]:
-            args.append(f"duration={sd['dur']}/64.0")
+            if sd.get("intdur") and sd["dur"] % 64 == 0:
+                args.append(f"duration={sd['dur'] // 64}")  # declared with an int literal
+            else:
+                args.append(f"duration={sd['dur']}/64.0")
             if sd.get("next") is not None:
                 args.append(f"next_state={sd['next']!r}")
         if sd.get("first"):
@@ -112,7 +115,7 @@ _CASE = st.tuples(st.lists(_STATE, min_size=1, max_size=5), _I(0, 4), st.lists(s
 DUR_POOL = [64, 1, 32, 96, 128, 2, 640, 16, 65, 63]
 STEP_POOL = [1, 1, 2, 8, 13, 32, 64, 65, 200, 4]
 VAR_DEFAULTS = [1.5, True, "txt", 7]
-VAR_EDITS = {float: [0.25, -3.0, 1.5], bool: [False, True, True], str: ["a", "", "txt2"], int: [1, 2, 3]}
+VAR_EDITS = {float: [0.25, -3.0, 1.5], bool: [False, True, True], str: ["a", "", "txt2"], int: [1, 2.5, 3]}
 
 
 def decode(code):
@@ -125,6 +128,7 @@ def decode(code):
         if timed:
             sd["dur"] = DUR_POOL[dpool] if dpool < len(DUR_POOL) else max(1, dfree)
             sd["next"] = None if nxt < 2 else names[(nxt - 2) % n]
+            sd["intdur"] = bool(paren)
         for a, t in script:
             if a <= 5:
                 sd["script"].append(["none"])
@@ -186,6 +190,12 @@ class C15(Lab):
         simenv.init()
 
     def strategy(self):
+        if self.tier == "thorough":
+            tms = st.lists(st.tuples(_I(0, 9), _I(0, 400)), min_size=1, max_size=60)
+            period = st.tuples(st.lists(_EDIT, max_size=3), _I(0, 5), tms, st.lists(st.tuples(_I(0, 59), _EDIT), max_size=3))
+            deep = st.tuples(st.lists(_STATE, min_size=1, max_size=7), _I(0, 6), st.lists(st.tuples(_I(0, 3), st.booleans()), max_size=2),
+                             st.lists(period, min_size=1, max_size=5), _I(0, 2))
+            return deep.map(decode)
         return _CASE.map(decode)
 
     def run_case(self, case):
@@ -237,7 +247,7 @@ class C15(Lab):
             model.on_enable(dash)
             for name, val in varvals.items():
                 got = getattr(mode, name, "<missing>")
-                if got != val or type(got) is not type(val) and not (isinstance(val, int) and isinstance(got, float)):
+                if got != val or type(got) is not type(val) and not (isinstance(val, (int, float)) and isinstance(got, (int, float)) and not isinstance(got, bool)):
                     raise Violation("C15/registered-var", f"period {pi}: after on_enable attribute {name} is {got!r}, dashboard holds {val!r}; case: {case}")
             if pi > 0 and prev_expiries and per["tms"][0] > min(prev_expiries):
                 late = True
